@@ -176,6 +176,8 @@ func (g *gatedConn) open() {
 	g.mu.Unlock()
 }
 
+var gaveUpTotal int // real-time scenarios of this run that ran into the cap
+
 // wait = quiescence: every goroutine of the bubble durably blocked (virtual time), or, in a
 // real-time scenario, until cond holds (at most a few seconds: only a faulty peer makes it wait)
 func (x *wireExec) wait(cond func() bool) {
@@ -186,12 +188,19 @@ func (x *wireExec) wait(cond func() bool) {
 	// (once a step of a scenario has run into the cap the scenario is lost - its observations are
 	// incomplete and the trace will be rejected; the remaining steps need not wait that long again)
 	cap := 8 * time.Second
+	if gaveUpTotal >= 5 {
+		// (and once several scenarios of a run are lost the peer is faulty: its verdict is in, be brief)
+		cap = time.Second
+	}
 	if x.gaveUp {
 		cap = 100 * time.Millisecond
 	}
 	deadline := time.Now().Add(cap)
 	for !cond() {
 		if !time.Now().Before(deadline) {
+			if !x.gaveUp {
+				gaveUpTotal++
+			}
 			x.gaveUp = true
 			return
 		}
